@@ -98,3 +98,23 @@ Theorem C13_sessions_keep_one_rule : forall c ss,
   run_sessions (mkFs c [] []) ss = mkFs c (run_writes Exact c (accepted_calls c ss)) [].
 Proof. exact sessions_keep_one_rule. Qed.
 Print Assumptions C13_sessions_keep_one_rule.
+
+(* ---- the placement arithmetic regenerated.  Gen/MdPlaceGen.v is produced on every run from the
+   current source of DigitalMetadataWriter._sample_group_generator and
+   DigitalMetadataReader._get_file_list (translator T7: Python integer expressions only, so arithmetic
+   evaluated on a numpy array -- where k*d would wrap -- is not translatable).  The Exact variant of the
+   hand model, about which the theorems above speak, is proved equal to it: the writer's file index,
+   file time and subdirectory time, and the reader's whole candidate list. *)
+From DRF Require Import Gen.MdPlaceGen Proofs.MdPlaceGenProofs.
+
+Theorem C13_writer_placement_is_the_regenerated_code : forall c k,
+  gen_w_file_idx (rn c) (rd c) (fc c) (sc c) k = w_file_idx Exact c k /\
+  gen_w_file_ts (rn c) (rd c) (fc c) (sc c) (w_file_idx Exact c k) = w_file_ts Exact c k /\
+  gen_w_sub_ts (rn c) (rd c) (fc c) (sc c) (w_file_ts Exact c k) = fst (w_path Exact c k).
+Proof. exact writer_placement_regen. Qed.
+Print Assumptions C13_writer_placement_is_the_regenerated_code.
+
+Theorem C13_reader_candidates_are_the_regenerated_code : forall c s0 s1,
+  gen_candidates c s0 s1 = candidates Exact c s0 s1.
+Proof. exact reader_candidates_regen. Qed.
+Print Assumptions C13_reader_candidates_are_the_regenerated_code.
